@@ -28,6 +28,19 @@ impl TimeUntil for Instant {
     }
 }
 
+/// Renders a deadline as an RFC 3339 timestamp for tracing spans. Deadlines past what the format
+/// can express (year 9999) or past the system clock's range are shown as the latest expressible
+/// time instead of failing to format, which panics inside some tracing subscribers.
+pub(crate) fn format_deadline(deadline: &Instant) -> humantime::Rfc3339Timestamp {
+    // 9999-12-31T23:59:59Z
+    let latest = std::time::UNIX_EPOCH + Duration::from_secs(253_402_300_799);
+    let deadline = std::time::SystemTime::now()
+        .checked_add(deadline.time_until())
+        .filter(|t| *t <= latest)
+        .unwrap_or(latest);
+    humantime::format_rfc3339(deadline)
+}
+
 /// The longest timeout handed to a deadline timer. The timer wheel behind `DelayQueue` panics on
 /// timeouts beyond roughly 2.18 years; deadlines further out are tracked as if they were this far
 /// away.
